@@ -1106,6 +1106,7 @@ def fam_multi_subgraph(rng, kind=None):
         net.op("READ_VARIABLE", [r], [v], {})
         t = elementwise(net, rng, "ADD", t, v, out_shape=shape)
         t.scale, t.zp = sc, zp
+    before = t
     if kind.startswith("while"):
         counter = kind != "while_fm"
         nloops = 2 if kind == "while2" else 1
@@ -1129,6 +1130,10 @@ def fam_multi_subgraph(rng, kind=None):
         y = fm(net, "if_out")
         ctl(net, "IF", [p, t], [y], ThenSubgraphIndex=th, ElseSubgraphIndex=el)
         t = y
+    if t is not before and rng.random() < 0.5:
+        # a tensor of main that is produced before and read after the control-flow operator (alive across the callees)
+        t = elementwise(net, rng, rng.choice(["ADD", "MUL"]), t, before, out_shape=shape)
+        t.scale, t.zp = sc, zp
     if cpu_main:
         t = _ms_custom(net, rng, t, "VendorPost")
     if rng.random() < 0.5:
